@@ -282,12 +282,19 @@ func C17(run *core.Run) {
 
 // c17Halt: a node that does not implement an enforced spork stops (exit status 2) exactly when the spork is enforced.
 func c17Halt(run *core.Run) {
+	c17HaltVariant(run, "alone")
+	// the unknown spork among others that are defined but not in force (not activated, or activated later): whatever their order
+	// in the contract's storage, the enforced unknown one is found
+	c17HaltVariant(run, "crowd")
+}
+
+func c17HaltVariant(run *core.Run, variant string) {
 	exe, err := os.Executable()
 	if err != nil {
 		core.Fatal("%v", err)
 	}
 	cmd := exec.Command(exe, "C17")
-	cmd.Env = append(os.Environ(), "VERIF_CHILD=spork-halt")
+	cmd.Env = append(os.Environ(), "VERIF_CHILD=spork-halt", "VERIF_HALT_VARIANT="+variant, fmt.Sprintf("VERIF_CHILD_SEED=%d", run.Seed))
 	out, err := cmd.CombinedOutput()
 	code := 0
 	if ee, ok := err.(*exec.ExitError); ok {
@@ -297,10 +304,13 @@ func c17Halt(run *core.Run) {
 	}
 	s := string(out)
 	reached := lastMarker(s, "HEIGHT ")
-	run.Set("halt_child", fmt.Sprintf("exit status %d, last height reported %s", code, reached))
+	run.Set("halt_child_"+variant, fmt.Sprintf("exit status %d, last height reported %s", code, reached))
 	want := lastMarker(s, "ENFORCEMENT ")
+	if code == 3 {
+		core.Fatal("halt child (%s) could not set its scenario up: %s", variant, tail(s, 300))
+	}
 	if code != 2 {
-		run.Report("C17:node-continues-under-unknown-spork", fmt.Sprintf("a node that does not implement an enforced spork did not stop (exit status %d, reached height %s, enforcement height %s)", code, reached, want), nil)
+		run.Report("C17:node-continues-under-unknown-spork-"+variant, fmt.Sprintf("a node that does not implement an enforced spork did not stop (variant %q: exit status %d, reached height %s, enforcement height %s)", variant, code, reached, want), map[string]interface{}{"kind": "spork-halt", "variant": variant})
 		return
 	}
 	if reached == "" || want == "" {
@@ -311,7 +321,7 @@ func c17Halt(run *core.Run) {
 	fmt.Sscan(reached, &r)
 	fmt.Sscan(want, &w)
 	if r != w-1 {
-		run.Report("C17:halt-at-wrong-height", fmt.Sprintf("node stopped after height %d, enforcement height is %d", r, w), nil)
+		run.Report("C17:halt-at-wrong-height-"+variant, fmt.Sprintf("variant %q: node stopped after height %d, enforcement height is %d", variant, r, w), map[string]interface{}{"kind": "spork-halt", "variant": variant})
 	}
 	run.Traces++
 }
@@ -339,6 +349,26 @@ func c17HaltChild() {
 		os.Exit(3)
 	}
 	p.Produce(0)
+	crowd := os.Getenv("VERIF_HALT_VARIANT") == "crowd"
+	var seed int64
+	fmt.Sscan(os.Getenv("VERIF_CHILD_SEED"), &seed)
+	var later []types.Hash
+	if crowd {
+		// six other sporks, all implemented by this binary: three stay unactivated, three are activated after the unknown one
+		for i := 0; i < 6; i++ {
+			b, err := p.Submit(&nom.AccountBlock{BlockType: nom.BlockTypeUserSend, Address: g.Spork.Address, ToAddress: types.SporkContract,
+				Data: definition.ABISpork.PackMethodPanic(definition.SporkCreateMethodName, fmt.Sprintf("spork-other-%d-%d", seed, i), "another spork")}, g.Spork)
+			if err != nil {
+				fmt.Println("create:", err)
+				os.Exit(3)
+			}
+			types.ImplementedSporksMap[b.Hash] = true
+			if i >= 3 {
+				later = append(later, b.Hash)
+			}
+			p.Produce(0)
+		}
+	}
 	blk, err := p.Submit(&nom.AccountBlock{BlockType: nom.BlockTypeUserSend, Address: g.Spork.Address, ToAddress: types.SporkContract,
 		Data: definition.ABISpork.PackMethodPanic(definition.SporkCreateMethodName, "spork-unknown", "a spork this binary does not implement")}, g.Spork)
 	if err != nil {
@@ -353,6 +383,13 @@ func c17HaltChild() {
 	p.Produce(0)
 	fmt.Printf("HEIGHT %d\n", p.Height())
 	fmt.Printf("ENFORCEMENT %d\n", p.Height()+uint64(constants.SporkMinHeightDelay))
+	for _, id := range later { // activated now: in force only after the unknown one
+		if _, err := p.Submit(&nom.AccountBlock{BlockType: nom.BlockTypeUserSend, Address: g.Spork.Address, ToAddress: types.SporkContract,
+			Data: definition.ABISpork.PackMethodPanic(definition.SporkActivateMethodName, id)}, g.Spork); err != nil {
+			fmt.Println("activate later:", err)
+			os.Exit(3)
+		}
+	}
 	for i := 0; i < 8; i++ {
 		p.Produce(0)
 		fmt.Printf("HEIGHT %d\n", p.Height())
